@@ -108,6 +108,8 @@ type c18Op struct {
 	Objs []c18Obj `json:"objs,omitempty"` // mkpol, req
 	Act  int      `json:"act,omitempty"`  // req
 	Salt int      `json:"salt,omitempty"` // chooses the near-miss objects of the battery
+	// rmrole: through a writer that may not delete internal roles (role 0 is internal)
+	Guarded bool `json:"guarded,omitempty"`
 }
 
 type c18Case struct {
@@ -240,8 +242,13 @@ func genC18(t *rapid.T) c18Case {
 			c.Ops = append(c.Ops, c18Op{K: "unassign", R: pickRole("un_r"), S: rapid.IntRange(0, c18Subjects-2).Draw(t, "un_s"), Salt: salt})
 		case k < 77:
 			r := pickRole("rmrole")
+			was := roleLive[r]
 			roleLive[r] = false
-			c.Ops = append(c.Ops, c18Op{K: "rmrole", R: r, Salt: salt})
+			op := c18Op{K: "rmrole", R: r, Salt: salt, Guarded: rapid.IntRange(0, 2).Draw(t, "guarded") == 0}
+			if op.Guarded && r == 0 {
+				roleLive[r] = was // refused
+			}
+			c.Ops = append(c.Ops, op)
 		case k < 84:
 			p := pickPol("rmpol")
 			polLive[p] = false
@@ -970,13 +977,23 @@ func runC18(t *testing.T, c c18Case, st *drv.Stats) (fail *drv.Failure) {
 			if !s.roles[op.R] && s.xRoleRow[op.R] == false && c18HasRoleEdges(s, op.R) {
 				st.Probe("role_recreated_after_delete")
 			}
-			r := role.Role{Key: c18Key(op.R), Name: "r" + strconv.Itoa(op.R)}
+			// role 0 is a built-in (internal) role: only a writer that may touch internal
+			// roles can delete it
+			r := role.Role{Key: c18Key(op.R), Name: "r" + strconv.Itoa(op.R), Internal: op.R == 0}
 			if err := w.svc.Role.NewWriter(tx, true).Create(ctx, &r); err != nil {
 				return refuse(err)
 			}
 			s.roles[op.R], s.xRoleRow[op.R] = true, true
 		case "rmrole":
-			err := w.svc.Role.NewWriter(tx, true).Delete(ctx, c18Key(op.R))
+			if op.Guarded && op.R == 0 && s.roles[op.R] {
+				// refused: the role, its assignments and its policies stay as they are
+				if err := w.svc.Role.NewWriter(tx, false).Delete(ctx, c18Key(op.R)); err == nil {
+					return drv.Failf("internal-role-deleted", "guarded-writer", "op %d %s: a writer that may not touch internal roles deleted the built-in role", i, c18OpString(op))
+				}
+				st.Probe("delete_of_internal_role_refused")
+				break
+			}
+			err := w.svc.Role.NewWriter(tx, !op.Guarded).Delete(ctx, c18Key(op.R))
 			if err != nil {
 				if s.roles[op.R] {
 					return refuse(err)
